@@ -373,6 +373,21 @@ func checkC12IDs(r *Report, p *Prog) {
 					}
 					idv = ret.Results[0]
 				}
+				// "id-" + hex.EncodeToString(randomBytes(n)) is the same text as Sprintf("id-%x", randomBytes(n))
+				if bo, okb := idv.(*ssa.BinOp); okb && bo.Op == token.ADD {
+					if pf, okp := constStr(bo.X); okp && pf == "id-" {
+						if hc, okh := bo.Y.(*ssa.Call); okh && calleeIs(hc, "encoding/hex.EncodeToString") {
+							if rc, okr := hc.Call.Args[0].(*ssa.Call); okr && rc.Call.StaticCallee() != nil && isRandomBytes(p, rc.Call.StaticCallee()) {
+								if k, okk := constInt(rc.Call.Args[0]); okk && k >= 16 {
+									ok = true
+									detail = fmt.Sprintf("id- + hex of %d random bytes", k)
+								} else {
+									detail = "fewer than 16 random bytes (or a non-constant count)"
+								}
+							}
+						}
+					}
+				}
 				if c, okc := idv.(*ssa.Call); okc && calleeIs(c, "fmt.Sprintf") {
 					if f, okf := constStr(c.Call.Args[0]); okf && f == "id-%x" {
 						// the single vararg is randomBytes(n)
